@@ -243,7 +243,18 @@ BigBad(e) ==
                                 \/ (e.hasvals /\ (I(j).get[1] = 1) # (I(j).srch[2] # NilV))
                                 \/ (I(j).get[1] = 1 /\ I(j).rget # I(j).get)},
       c14     |-> {j \in 1..n : I(j).geti[1] # -1 /\ I(j).geti # I(j).get},
-      c18     |-> IF e.statpan # "" \/ e.keycnt # e.nret THEN {1} ELSE {}]
+      c18     |-> (IF e.statpan # "" \/ e.keycnt # e.nret THEN {1} ELSE {})
+                  \cup (IF e.statpan = "" THEN
+                          LET lv == e.stat3[3]  nl == Len(lv) IN
+                          IF nl = 0 THEN {2}
+                          ELSE (IF e.nodecnt # lv[nl][1] \/ lv[nl][3] # e.nret \/ lv[1] # <<0, 0, 0>> THEN {3} ELSE {})
+                               \cup (IF \E i \in 1..nl : lv[i][1] # lv[i][2] + lv[i][3] THEN {4} ELSE {})
+                               \cup (IF \E i \in 1..(nl - 1) : \E x \in 1..3 : lv[i][x] > lv[i+1][x] THEN {5} ELSE {})
+                        ELSE {}),
+      \* a loaded trie answers exactly as the fresh one did (false positives included), and
+      \* reports the same statistics
+      c05     |-> {j \in 1..n : I(j).fresh # <<I(j).id, I(j).get, I(j).rget, I(j).srch>>}
+                  \cup (IF e.stat3 # e.freshstat THEN {0} ELSE {})]
 
 TObsBig ==
   /\ Ev("obsbig") /\ inst' = NoInst
@@ -257,6 +268,7 @@ TObsBig ==
      /\ Report(l, "P:C10:agree", b.c10)
      /\ Report(l, "P:C14:geti", b.c14)
      /\ Report(l, "P:C18:stat", b.c18)
+     /\ Report(l, "P:C05:answers", b.c05)
 TBigFail ==
   /\ Ev("bigfail") /\ inst' = NoInst
   /\ Report(l, "P:C08:outcome", {1})
